@@ -21,7 +21,7 @@ VARIABLES tl,      \* position in the trace
 tvars == <<tl, tseed>>
 
 Formats == {"mpq", "ptch", "m2", "skin", "anim", "adt", "wmo", "blp", "dbc", "wdt", "wdl"}
-PlanArchs == Archetypes \cup {"prefix", "chunkedit", "pair", "havoc", "base"}
+PlanArchs == Archetypes \cup {"prefix", "chunkedit", "pair", "resize", "havoc", "base"}
 PeakLimitKiB(lenBytes) == 64 * ((lenBytes + 1023) \div 1024) + 262144
 
 WellFormed(e) == /\ e.outcome \in Vocabulary
